@@ -41,7 +41,8 @@ func (m *Meta) Encode() ([]byte, error) {
 		return nil, err
 	}
 
-	return buf.Bytes(), nil
+	// copy: the pooled buffer is reused as soon as this function returns
+	return bytes.Clone(buf.Bytes()), nil
 }
 
 func (m *Meta) Decode(data []byte) error {
